@@ -407,3 +407,68 @@ def B6_uff_key_prefix(repo, clause, funcs=None):
                           slot="prefix:%s" % fn.qualname))
     floor("B6", "uff_key_starts_with call sites", n, 1 if funcs else 3)
     return obs
+
+
+def B2_axis_runs(repo, clause, funcs=None):
+    """Three sibling expressions that differ only in one integer (x/y/z columns, label_1..label_3, rows 0..2) must use
+    consecutive integers: a repeated or skipped axis index is a copy/paste slip."""
+    from verif_sa.siblings import _template
+    obs = []
+    n = 0
+    for fn in repo.all_fns():
+        if funcs is not None and fn.qualname not in funcs:
+            continue
+        for node in fn.own_nodes():
+            elts = None
+            if isinstance(node, (ast.List, ast.Tuple)) and 3 <= len(node.elts) <= 4:
+                elts = node.elts
+            elif isinstance(node, ast.BoolOp) and len(node.values) == 3:
+                elts = node.values
+            if elts is None or any(isinstance(e, (ast.Constant, ast.Name, ast.Starred)) for e in elts):
+                continue
+            temps = [_template(e) for e in elts]
+            if len({t for t, h in temps}) != 1 or any(len(h) < 1 for t, h in temps):
+                continue
+            # every hole position must either be constant across the siblings or run k, k+1, k+2
+            nh = len(temps[0][1])
+            if any(len(h) != nh for t, h in temps):
+                continue
+            cols = list(zip(*[[v for _, v in h] for t, h in temps]))
+            varying = [c for c in cols if len(set(c)) > 1]
+            if len({tuple(c) for c in varying}) != 1:
+                continue      # indices vary in different ways (e.g. tilt entries, normal/row pairings): other rules judge those
+            n += 1
+            c0 = list(varying[0])
+            ok = c0 == list(range(c0[0], c0[0] + len(c0))) or c0 == list(range(c0[0], c0[0] - len(c0), -1))
+            obs.append(Ob("B2", clause, fn, node, ok,
+                          "sibling expressions differ only in the integer(s) %s: %s" % (
+                              [list(c) for c in varying], "consecutive" if ok else "NOT consecutive (an axis/label index is repeated or skipped)"),
+                          slot="run:%s" % re.sub(r"\s+", " ", ast.unparse(elts[0]))[:60], positive=True))
+    floor("B2", "axis/label runs", n, 1 if funcs else 4)
+    return obs
+
+
+def G1_no_swallowed_errors(repo, clause, modules=("mofun.atoms", "mofun.mofun", "mofun.helpers", "mofun.detect_bonds", "mofun.rough_uff")):
+    """No exception handler silently discards an error: every `except` either re-raises, or replaces the value it guards
+    (the one documented fallback in load_lmpdat)."""
+    obs = []
+    n = 0
+    for fn in repo.all_fns():
+        if fn.module.name not in modules:
+            continue
+        for t in [x for x in fn.own_nodes() if isinstance(x, ast.Try)]:
+            for h in t.handlers:
+                n += 1
+                body = [s for s in h.body if not (isinstance(s, ast.Expr) and isinstance(s.value, ast.Call) and call_name(s.value) == "print")]
+                silent = all(isinstance(s, (ast.Pass, ast.Continue)) for s in body) or not body
+                assigned_in_try = {x.id for b in t.body for x in ast.walk(b) if isinstance(x, ast.Name) and isinstance(x.ctx, ast.Store)}
+                assigned_in_handler = {x.id for b in h.body for x in ast.walk(b) if isinstance(x, ast.Name) and isinstance(x.ctx, ast.Store)}
+                reraises = any(isinstance(x, ast.Raise) for b in h.body for x in ast.walk(b))
+                ok = (not silent) and (reraises or bool(assigned_in_try & assigned_in_handler))
+                obs.append(Ob("G1", clause, fn, h, ok,
+                              "exception handler in %s %s" % (fn.qualname, "re-raises or supplies the documented fallback value for %s" % sorted(assigned_in_try & assigned_in_handler)
+                                                              if ok else "SWALLOWS the error (pass/continue or no replacement value): a failure is turned into silent corruption"),
+                              slot="handler:%s" % fn.qualname, positive=True))
+    obs.append(Ob("G1", clause, repo.fn("replace_pattern_in_structure"), repo.fn("replace_pattern_in_structure").node, True,
+                  "%d exception handlers in the library modules inspected" % n, construct="try/except inventory", slot="inventory"))
+    return obs
